@@ -88,6 +88,10 @@ func caseGen() *rapid.Generator[Case] {
 				st.Via2 = rapid.IntRange(0, 4).Draw(t, "via2") == 0
 				st.Err = rapid.IntRange(0, 3).Draw(t, "err") == 0
 				st.Lazy = gen.Rarely(t, "lazy", 10)
+				st.Func = rapid.IntRange(0, 3).Draw(t, "func") == 0
+				if gen.Rarely(t, "bad", 12) {
+					st.Bad = rapid.IntRange(1, 2).Draw(t, "bad-kind")
+				}
 				if gen.Rarely(t, "grower", 10) {
 					st.Owner, st.When, st.Target, st.Grow = "table", 0, 2, true
 				}
